@@ -42,9 +42,9 @@ RetimeOK(m1, m2, r) ==
 \* when the feed round yields less meat in total, the round is skipped instead
 RetimeSkipOK(m1, m2) == Ck("RetimeSkipOnlyWhenLess", SLt(Total(m2), Total(m1)) \/ ~Le(Total(m1), Total(m2)))
 
-(* Bump: biofuel b, feed f, demand ceilings maxB, maxF (monthly series); b2, f2 the adjusted series *)
-BumpOK(b, f, maxB, maxF, b2, f2) ==
+(* Bump: biofuel b, feed f, demand ceilings maxB, maxF (monthly series); b2, f2 the adjusted series; dom: b <= maxB and f <= maxF held *)
+BumpOK(b, f, maxB, maxF, b2, f2, dom) ==
   /\ Ck("BumpNeverLowers", \A i \in 1..Len(b) : Le(b[i], b2[i]) /\ Le(f[i], f2[i]))
-  /\ Ck("BumpWithinDemand", \A i \in 1..Len(b) : /\ (SLt(b[i], b2[i]) => Le(b2[i], maxB[i]))
+  /\ Ck("BumpWithinDemand", ~dom \/ \A i \in 1..Len(b) : /\ (SLt(b[i], b2[i]) => Le(b2[i], maxB[i]))
                                                 /\ (SLt(f[i], f2[i]) => Le(f2[i], maxF[i])))
 =============================================================================
